@@ -63,6 +63,45 @@ func init() {
 		return cell.V
 	}
 
+	// sync.Pool: Get returns any object previously Put and not yet handed out again, or a new one (the
+	// runtime may drop pooled objects at any time); Put makes the object available to later Gets.
+	stdModels["(*sync.Pool).Put"] = func(ex *Exec, c *frame, fn *ssa.Function, a []Value) Value {
+		pool, _ := a[0].(*Cell)
+		if pool == nil {
+			ex.goPanicf("invalid memory address or nil pointer dereference")
+		}
+		if iv, ok := a[1].(Iface); ok && iv.T == nil {
+			return nil
+		}
+		if ex.pools == nil {
+			ex.pools = map[*Cell][]Value{}
+		}
+		ex.pools[pool] = append(ex.pools[pool], a[1])
+		return nil
+	}
+	stdModels["(*sync.Pool).Get"] = func(ex *Exec, c *frame, fn *ssa.Function, a []Value) Value {
+		pool, _ := a[0].(*Cell)
+		if pool == nil {
+			ex.goPanicf("invalid memory address or nil pointer dereference")
+		}
+		items := ex.pools[pool]
+		if len(items) > 0 {
+			i := ex.chooseN("pool-get", len(items)+1)
+			if i < len(items) {
+				v := items[i]
+				ex.pools[pool] = append(append([]Value{}, items[:i]...), items[i+1:]...)
+				return v
+			}
+		}
+		// New field: the last field of sync.Pool
+		st := pool.V.(*Struct)
+		newFn := st.F[len(st.F)-1].V
+		if isNilFunc(newFn) {
+			return Iface{}
+		}
+		return ex.call(newFn, nil, nil, c)
+	}
+
 	// sync: tier A is single-threaded; locks are no-ops (tier B replaces these)
 	nop := func(ex *Exec, c *frame, fn *ssa.Function, a []Value) Value { return zeroResults(fn) }
 	for _, n := range []string{"(*sync.Mutex).Lock", "(*sync.Mutex).Unlock", "(*sync.RWMutex).Lock", "(*sync.RWMutex).Unlock",
